@@ -257,6 +257,58 @@ def rule_globals(repo, res, modules=("parser", "decoder", "encoder", "lexer", "t
 
 
 # ---------------------------------------------------------------- C08
+def rule_shared_class_state(repo, res, families=("PVLParser", "PVLDecoder", "PVLEncoder")):
+    """E-SHARED: an object created in a class body (NAME = Something(...), [], {}, set()) is one object for every
+    instance of the class and its subclasses.  A method that writes through it -- self.NAME.attr = ..., self.NAME[k] =
+    ..., self.NAME.append(...) -- changes what every other instance sees: the result of one encoder/parser then depends
+    on which other instances were built or used before (unless the constructor first gives the instance its own object:
+    self.NAME = ...)."""
+    n = 0
+    for fam in families:
+        for c in repo.subclasses(fam):
+            mro = [x for x in repo.mro(c) if not x.startswith("ext:")]
+            shared = {}
+            for k in mro:
+                for name, val in repo.classes[k].aliases.items():
+                    if isinstance(val, (ast.Call, ast.List, ast.Dict, ast.Set, ast.ListComp, ast.DictComp, ast.SetComp)) \
+                            and not (isinstance(val, ast.Call) and norm(val.func) in ("tuple", "frozenset", "re.compile", "str", "int", "float",
+                                                                                      "namedtuple", "collections.namedtuple", "property")):
+                        shared.setdefault(name, k)
+            if not shared:
+                continue
+            # names the constructor rebinds on the instance are per-instance
+            own = set()
+            for k in mro:
+                init = repo.classes[k].methods.get("__init__")
+                if init is not None:
+                    for a in ast.walk(init):
+                        if isinstance(a, ast.Assign):
+                            for t in a.targets:
+                                if isinstance(t, ast.Attribute) and isinstance(t.value, ast.Name) and t.value.id == "self":
+                                    own.add(t.attr)
+            for m, fn in repo.classes[c].methods.items():
+                for a in ast.walk(fn):
+                    tgt = None
+                    if isinstance(a, (ast.Assign, ast.AugAssign, ast.AnnAssign)):
+                        for t in (a.targets if isinstance(a, ast.Assign) else [a.target]):
+                            if isinstance(t, (ast.Attribute, ast.Subscript)) and isinstance(t.value, ast.Attribute) \
+                                    and isinstance(t.value.value, ast.Name) and t.value.value.id in ("self", "cls", c):
+                                tgt = t.value.attr
+                    if isinstance(a, ast.Call) and isinstance(a.func, ast.Attribute) and a.func.attr in MUTATORS \
+                            and isinstance(a.func.value, ast.Attribute) and isinstance(a.func.value.value, ast.Name) \
+                            and a.func.value.value.id in ("self", "cls", c):
+                        tgt = a.func.value.attr
+                    if tgt in shared and tgt not in own:
+                        n += 1
+                        res.oblige("E-SHARED", f"{c}.{m}: `{norm(a, 60)}` does not write through the class-level object `{tgt}`", ok=False)
+                        res.add(Finding("E-SHARED", f"{c}.{m}", f"writes through class attribute {tgt}",
+                                        f"{c}.{m} executes `{norm(a, 70)}`; `{tgt}` is created once in the body of class {shared[tgt]} and "
+                                        "shared by all instances, so one instance's configuration or call changes the behaviour of every "
+                                        "other instance (results depend on which instances were built or used before)",
+                                        where=f"pvl/{repo.classes[c].module.name}.py:{a.lineno}"))
+    res.oblige("E-SHARED", "no method writes through a mutable object created in a class body", ok=True, nontrivial=False)
+
+
 def rule_e1(repo, res):
     """EmptyValueAtLine is constructed only in OmniParser._empty_value-like
     helpers of OmniParser (who-may-construct); the helper appends to
